@@ -340,6 +340,8 @@ unsub_harness! {
     // between the rounds
     s_unsub_between = (crossbeam::hooks::TAKEN, 0, 1);
     s_unsub_reduce1 = (rt::P_PHASE_REDUCE, 1, 0);
+    s_unsub_taken0 = (crossbeam::hooks::TAKEN, 0, 0);
+    s_unsub_effect1 = (rt::P_PHASE_EFFECT, 1, 0);
     // KNOWN FINDING witnesses: inside A's callback, i.e. after the snapshot was taken
     s_unsub_inside_round0_witness = (rt::P_NOTIFY, 0, 0);
     s_unsub_inside_round1_witness = (rt::P_NOTIFY, 0, 1);
